@@ -259,10 +259,70 @@ Definition wf_ids (ops : list op) : Prop :=
 Definition wf_ids_b (ops : list op) : bool :=
   forallb (fun x => opid_eqb x root_id || (1 <=? fst x)) (ids_of ops) && forallb (fun o => 1 <=? fst (op_id o)) ops.
 
-(* actors and hashes a history (read at heads hs) mentions *)
+(* actors and hashes a history (read at heads hs) mentions (Change::actors of every change: the
+   author and every actor named by an op id, object id, element id or predecessor) *)
+Definition id_actors (ops : list op) : list actor :=
+  map snd (filter (fun x => negb (opid_eqb x root_id)) (ids_of ops)).
 Definition hist_actors (appl : list change) : list actor :=
-  map ch_actor appl ++ map snd (ids_of (all_ops appl)).
+  map ch_actor appl ++ id_actors (all_ops appl).
 Definition hist_hashes (appl : list change) (hs : list N) : list N :=
   hs ++ hashes appl ++ flat_map ch_deps appl.
 
 Definition rn_clock (R : renaming) (k : clock) : clock := map (fun an => (r_actor R (fst an), snd an)) k.
+
+(* ------------------------------------------------------------------ the substitution tables of the code *)
+Definition alpha_size (al : salpha) : N :=
+  match al with PrintableAscii => 95 | AsciiControl => 33 | TwoByte => 1920 | ThreeByte => 61440 | FourByte => 1048576 end.
+(* a Rust char: below 0x110000 and not a surrogate *)
+Definition valid_char (c : N) : Prop := c < 1114112 /\ ~ (55296 <= c /\ c < 57344).
+(* random_derangement: a permutation of 0..size without fixed points *)
+Definition tables_ok (p : tables) : Prop := forall al r, r < alpha_size al -> p al r < alpha_size al.
+Definition tables_inj (p : tables) : Prop :=
+  forall al r1 r2, r1 < alpha_size al -> r2 < alpha_size al -> p al r1 = p al r2 -> r1 = r2.
+Definition tables_derange (p : tables) : Prop := forall al r, r < alpha_size al -> p al r <> r.
+(* what the code would need and does NOT guarantee: no control character below U+0020 is sent to rank
+   0x20, the rank of DEL (structural_character_from_rank returns the rank itself for those originals) *)
+Definition no_del_rank (p : tables) : Prop := forall r, r < 32 -> p AsciiControl r <> 32.
+
+(* the character a rank stands for *)
+Definition decode (al : salpha) (r : N) : N :=
+  match al with
+  | PrintableAscii => 32 + r
+  | AsciiControl => if r <? 32 then r else 127
+  | TwoByte => 128 + r
+  | ThreeByte => if r <? 53248 then 2048 + r else 4096 + r
+  | FourByte => 65536 + r
+  end.
+
+(* big-endian value of a digit string *)
+Fixpoint bev (l : list N) : N :=
+  match l with [] => 0 | d :: t => d * 256 ^ N.of_nat (length t) + bev t end.
+
+(* the renaming the code builds: actor table s (the sorted set of all actors), common prefix, tables p for
+   keys and mark names, and the values / increments / hashes it happens to produce *)
+Definition code_renaming (prefix : list N) (s : list actor) (p : tables)
+  (vals : opid -> scalar -> scalar) (incs : opid -> Z -> Z) (fh : N -> N) : renaming :=
+  mkRen (fun a => match anon_actor prefix s a with Ok x => x | _ => a end)
+        (struct_string p) (struct_string p) vals incs fh.
+
+(* anonymize_content_string / anonymize_bytes / anonymize_scalar with the random draws as parameters:
+   syn i = the synthetic byte drawn for position i, fz / fu / fb the fresh numbers and boolean *)
+Definition content_string (p : tables) (syn : nat -> N) (s : list N) : list N :=
+  map (fun ic => content_char p (syn (fst ic)) (snd ic)) (combine (seq 0 (length s)) s).
+Definition anon_bytes (syn : nat -> N) (b : list N) : list N :=
+  map (fun ic => syn (fst ic)) (combine (seq 0 (length b)) b).
+Definition anon_scalar (p : tables) (syn : nat -> N) (fz : Z) (fu : N) (fb : bool) (v : scalar) : scalar :=
+  match v with
+  | SBytes b => SBytes (anon_bytes syn b)
+  | SStr s => SStr (content_string p syn s)
+  | SInt _ => SInt fz
+  | SUint _ => SUint fu
+  | SF64 _ => SF64 fu
+  | SCounter _ => SCounter fz
+  | STimestamp _ => STimestamp fz
+  | SBool _ => SBool fb
+  | SUnknown t b => SUnknown t (anon_bytes syn b)
+  | SNull => SNull
+  end.
+
+Definition scalar_valid (v : scalar) : Prop := match v with SStr s => Forall valid_char s | _ => True end.
